@@ -120,14 +120,14 @@ theorem depth_of_none (L : Lists) (c : Cfg) (n : Str) (as : List Attr) (d m : Na
 
 theorem attrGood_iff (L : Lists) (c : Cfg) (n : Str) (a : Attr) :
     AttrGood (attrCtx L c n) a ↔
-      attrOk L c n a.name = true ∧
+      attrOkA L c n a ∧
       (a.name = className → ∀ cl ∈ splitWs a.value, classOk L c n cl = true) := by
-  unfold AttrGood attrOk attrCtx
+  unfold AttrGood attrOkA attrOk attrListed attrCtx Attr.isHtml
   have hcl : ∀ cl, classPass (attrCtx L c n) cl = classOk L c n cl := fun cl => rfl
   simp only [attrCtx] at hcl
   simp only [hcl]
   cases h1 : optContains (c.removeAttrs.bind (mapGet · n)) a.name <;>
-  cases h2 : (c.allowAttrs.isSome || c.useStrict) <;> simp
+  cases h2 : (c.allowAttrs.isSome || c.useStrict) <;> simp [and_comm]
 
 
 end Ruma.Lemmas.Html
